@@ -3,7 +3,9 @@ pub mod c02;
 pub mod c03;
 pub mod c04;
 pub mod c10;
+pub mod c15;
 pub mod c16;
+pub mod c17;
 pub mod c19;
 pub mod diffprop;
 pub mod refprops;
@@ -24,7 +26,10 @@ pub fn all() -> Vec<Box<dyn Property>> {
         Box::new(c10::C10),
         Box::new(refprops::c12()),
         Box::new(refprops::c13()),
+        Box::new(refprops::c14()),
+        Box::new(c15::C15),
         Box::new(c16::C16),
+        Box::new(c17::C17),
         Box::new(refprops::c18()),
         Box::new(c19::C19),
     ]
